@@ -184,7 +184,10 @@ def check_c01(tier, seed):
             rep.distinct.add(core.digest([c["prog"], c["envId"]]))
     collect(rep, tr, cases, jobs,
             lambda b: b["why"] in ("rejected", "layout", "panic", "repro")
-            or (b["why"] == "field" and b["detail"].get("field") != "redeemers"))
+            or (b["why"] == "field" and b["detail"].get("field") != "redeemers")
+            # (out-of-range quantities are C02's; a reference literal that no 32-bit output index can hold is a matter of
+            # meaning: whatever transaction comes out does not reference what the template says)
+            or (b["why"] == "accepted" and "utxo ref" in str(b["detail"].get("why"))))
     outcomes = {}
     for e in evs:
         k = e[1].get("outcome")
